@@ -111,6 +111,22 @@ def check_next(ctx):
         if cas:
             new = R.arg_expr(b, b.nodes[cas[0]], 2)
             ctx.check(new.k == "arg" and new.extra[0] == 3, inst, "PROVENANCE", b.path, "observe installs exactly the observed timestamp", b.where(cas[0]))
+        # the terminal timestamp never enters a clock shard: a shard at u64::MAX makes next() return MAX for every key that
+        # hashes to it, so their second automatic write would be rejected as older. The exemption has to sit where *all*
+        # feeders pass (recovery and lazy expiry call observe directly), i.e. inside observe or at every call site.
+        def is_max(e):
+            return e.k == "bin" and e.extra == "Eq" and e.has_arg(idx=3) and any(x.k == "const" and (x.extra or {}).get("val") == 0xFFFFFFFFFFFFFFFF for x in e.walk())
+        inner = A.pred_edges(b, is_max, "false")
+        if inner:
+            R.guard(ctx, inst, b, cas, inner, "u64::MAX is never installed into a clock shard (terminal pins do not exhaust colliding keys)")
+        else:
+            for cb, cn in ctx.prog.call_sites("VersionClock::observe"):
+                def is_max_at(e, cb=cb, cn=cn):
+                    t = R.arg_expr(cb, cn, 2)
+                    return e.k == "bin" and e.extra == "Eq" and any(x.k == "const" and (x.extra or {}).get("val") == 0xFFFFFFFFFFFFFFFF for x in e.walk()) and \
+                        (e.a[0].key() == t.key() or e.a[1].key() == t.key())
+                R.guard(ctx, inst, cb, [cn.id], A.pred_edges(cb, is_max_at, "false"),
+                        "u64::MAX is never installed into a clock shard: observe() has no terminal-timestamp exemption, so every caller needs one")
     b = ctx.fn("VersionClock::shard", inst)
     # both use the same shard for a key
     for fn in ("VersionClock::next", "VersionClock::observe"):
